@@ -133,7 +133,7 @@ impl B {
     }
     fn max_hay(&self, native: usize) -> usize {
         if self.tgt.scale_small {
-            native.min(300)
+            native.min(200)
         } else {
             native
         }
@@ -203,7 +203,7 @@ impl B {
         self.push(t, Op::IterNew { be, arity, n, hay, dst: it });
         // live iterators: (thread, slot)
         let mut live = vec![(t, it)];
-        let budget = (nmatches + 6).min(if count_heavy { 14 } else { 40 });
+        let budget = (nmatches + 6).min(if count_heavy { 14 } else if self.tgt.scale_small { 18 } else { 40 });
         let nthreads = self.threads.len();
         // pattern of ends
         let pattern = self.rng.below(5);
@@ -312,7 +312,7 @@ impl B {
         // does anything still borrow the needle buffer?
         let mut borrowed_live = 1usize + finder_slot.is_some() as usize;
         let mut shared_out = false;
-        let budget = (list_len + 5).min(36);
+        let budget = (list_len + 5).min(if self.tgt.scale_small { 16 } else { 36 });
         for _ in 0..budget {
             if live.is_empty() {
                 break;
@@ -737,7 +737,12 @@ fn draw_env(rng: &mut Rng, tgt: &Target, nthreads: usize, concurrent_faults: boo
             _ => Sched::Pct(1 + rng.below(3) as u8),
         }
     };
-    let stale_pct = if concurrent_faults { *rng.pick(&[0u8, 0, 10, 30, 30, 60]) } else { 0 };
+    let mut stale_pct = if concurrent_faults { *rng.pick(&[0u8, 0, 10, 30, 30, 60]) } else { 0 };
+    if tgt.miri {
+        // under Miri the real atomics run under its weak-memory emulation;
+        // the explicit fault is not needed (and would only mask it)
+        stale_pct = 0;
+    }
     Env { krate, cpu, dispatch, sched, stale_pct }
 }
 
